@@ -7,7 +7,7 @@ import tempfile
 LEAN_DIR = os.path.join(os.path.dirname(os.path.abspath(__file__)), "..", "lean")
 
 
-def run_driver(cases, nproc=None, timeout=3000):
+def run_driver(cases, nproc=None, timeout=3000, driver="Driver.lean"):
     """cases: list of dicts with unique 'id'.  Splits across processes."""
     if not cases:
         return {}
@@ -19,7 +19,7 @@ def run_driver(cases, nproc=None, timeout=3000):
         for c in ch:
             f.write(json.dumps(c) + "\n")
         f.seek(0)
-        p = subprocess.Popen(["lake", "env", "lean", "--run", "Driver.lean"], cwd=LEAN_DIR, stdin=f,
+        p = subprocess.Popen(["lake", "env", "lean", "--run", driver], cwd=LEAN_DIR, stdin=f,
                              stdout=subprocess.PIPE, stderr=subprocess.PIPE, text=True)
         procs.append((p, f))
     out = {}
